@@ -330,7 +330,11 @@ func init() {
 			fn = nil
 			for _, f := range c.fnsCalling("getChunkSize") {
 				if recv := f.Signature.Recv(); recv == nil && c.entries().MERGE[topFn(f)] || fnName(f) == "prepareNewTerm" {
-					fn = f
+					// (the function that prepares a term when it is there: a doc-value helper that
+					// also asks for a chunk size is DV-FACTOR-AGREE's business)
+					if fn == nil || fnName(fn) != "prepareNewTerm" {
+						fn = f
+					}
 				}
 			}
 			if fn == nil {
